@@ -415,10 +415,11 @@ def evaluate(ctx, cases, res):
             if len(case['chunks']) >= 2 and out:
                 res.nontrivial(('r', case['magic'], case['mp'], case['mb'], tuple(case['chunks'])))
         res.count('tag_' + case.get('tag', '?'))
+        short = (lambda t: t if len(t) < 4000 else t[:1500] + f'...({len(t)} chars)...' + t[-500:])
         if verdict:
-            res.violation(verdict[0], case_json(case), verdict[1], impl=got)
+            res.violation(verdict[0], case_json(case), verdict[1][:600], impl=short(got))
         if model is not None and model[i] != got:
-            res.disagreement(case_json(case), got, model[i])
+            res.disagreement(case_json(case), short(got), short(model[i]))
     res['evaluations'] += len(cases)
     return outs
 
@@ -636,6 +637,30 @@ def chunking_cases(maxcuts):
     return cases
 
 
+def large_cases():
+    """Deterministic (identical for every seed): payloads around 64 KiB and of a few hundred KB
+    whose final chunk ends exactly at the frame boundary / one byte before / one byte after,
+    under several chunkings of what precedes, followed by two more messages (a small one and an
+    empty one) that must come out intact."""
+    magic = DEFAULT_MAGIC
+    cases = []
+    for n in (65535, 65536, 65537, 131072, 262144):
+        payload = bytes((i * 7 + n) % 251 for i in range(n))
+        s = mk_frame(magic, b'big', payload) + mk_frame(magic, b'next', b'1') + mk_frame(magic, b'last', b'')
+        end = 24 + n
+        pres = [[24], [10], [24, 24 + n // 2], list(range(16384, end - 1, 16384)), []]
+        if n > 65537:
+            pres = pres[:1] + pres[3:]
+        for pre in pres:
+            for d in (-1, 0, 1):
+                for tail in ([], [end + 25]):
+                    cuts = [c for c in pre if c < end + d] + [end + d] + tail
+                    cases.append(recv_case(magic, 300000, 300000, chunk_at(s, cuts), 'large-payload',
+                                           mode=len(cases) % 3))
+        cases.append(recv_case(magic, 300000, 300000, [s], 'large-payload', mode=0))
+    return cases
+
+
 CMDS = [b'', b'a', b'ver', b'version', b'block', b'blocks', b'getheaders', b'123456789012',
         b'\0lead', b'in\0side', b'\xff\xfe', b'sp ', b'tab\t', b'nl\n', b' lead', b'0', b'\x01',
         b'eleven  ..\r', b'BLOCK', b'block ']
@@ -784,7 +809,9 @@ RULE = ('case = (kind, magic, max_payload_size, max_block_size, chunk list, feed
         'command variants x 7 limit configurations, every cut set up to the stated size of a '
         '3-message stream, 7 magics x 4 foreign magics; sampled: double / multi-bit flips, '
         'seeded random streams of valid / bad-checksum / bad-magic / oversize / garbage items '
-        'with random truncation, flips and chunkings (empty chunks included), round trips '
+        'with random truncation, flips and chunkings (empty chunks included); 100 fixed cases '
+        'with payloads of 64 KiB - 1 .. 256 KiB whose final chunk ends at the frame boundary '
+        '-1/0/+1 under 5 chunkings, followed by two more messages; round trips '
         'through the real frame(); the same streams through a MessageSession on a fake '
         'transport that reports the loss at once / 2.5 ms after close() / not before abort(); '
         'non-trivial = at least 2 chunks and at least one outcome (recv) or closed '
@@ -829,6 +856,12 @@ def run(ctx):
         'header_bits_flipped': 192, 'shapes': len(SHAPES), 'limit_configs': BOUND_CFGS,
         'command_variants': len(BOUND_CMDS), 'chunking_max_cuts': 3 if deep else 2,
         'cases': len(ex)}
+    # (c') large payloads ending exactly at / next to a chunk boundary: the same cases for every seed
+    lg = large_cases()
+    louts = evaluate(ctx, lg, res)
+    lsess = [dict(as_sess(c, rng), lose=0, kind='client') for c in lg[::7]]
+    evaluate(ctx, lsess, res)
+    res['scopes']['large_payloads'] = {'recv': len(lg), 'sess': len(lsess)}
     # (d) round trips through the real frame(), F17 family
     rt = roundtrip_cases(rng, 20000 if deep else 2500, framing)
     rt += trailing_nul_cases(rng, 200 if deep else 30, framing)
